@@ -60,6 +60,9 @@ type mach struct {
 	in   *Info
 	data []uint8 // mode-0 interrupt: instruction bytes come from here, PC untouched
 	dpos int
+	// dataAdvance (known finding im0-executes-at-pc without its overlay facets): every fetch from data advances PC
+	// as a fetch from memory would; once the data is used up the rest comes from memory at PC
+	dataAdvance bool
 }
 
 func (m *mach) fetch() uint8 {
@@ -68,8 +71,13 @@ func (m *mach) fetch() uint8 {
 		var v uint8
 		if m.dpos < len(m.data) {
 			v = m.data[m.dpos]
+		} else if m.dataAdvance {
+			v = m.b.Read(m.s.PC)
 		}
 		m.dpos++
+		if m.dataAdvance {
+			m.s.PC++
+		}
 		return v
 	}
 	v := m.b.Read(m.s.PC)
